@@ -219,6 +219,19 @@ def classify(unit_name, meta, vr):
         if k not in seen:
             seen.add(k)
             uniq.append(f)
+    # degraded functions (an optional hint anchor was lost): only the obligations declared independent of the hint are believed
+    for dg in meta.get('degraded', []):
+        kept = []
+        for f in uniq:
+            if f['fn'] == dg['fn'] and f['unit'] == unit_name:
+                label = f['obligation'].split('::')[-1]
+                if label in dg['keeps']:
+                    kept.append(f)
+                else:
+                    undecided.append('%s: hint anchor %s lost in %s; failure of %s cannot be believed' % (unit_name, dg['lost'], dg['fn'], f['obligation']))
+            else:
+                kept.append(f)
+        uniq = kept
     vacuous = [v['twin'] for v in vac if v['twin'] not in vac_failed]
     stats = {'verified': res.get('verified'), 'errors': res.get('errors'), 'total_ms': oj.get('total_ms'), 'smt_ms': oj.get('smt_ms'),
              'rlimit': oj.get('rlimit'), 'wall_s': vr['wall_s'], 'cache': vr['cache']}
